@@ -61,8 +61,11 @@ def example_sources(rng, k):
         msg = rng.choice(["'k%d'" % k, "'bad value 1.5 in v2.x (%d)'" % k, "'see file settings.ini: line %d'" % k, "'a: b.c'"])
         cls = rng.choice(['KeyError', 'ValueError', 'ZeroDivisionError'])
         return ["boom(%d, %s, %s)" % (k, cls, msg)], 'IGNORE_EXCEPTION_DETAIL', None
-    if r < 0.88:
+    if r < 0.86:
         return ["print('skipped', t(%d))" % k], 'SKIP', None
+    if r < 0.88:
+        # an option on an example that continues over several lines
+        return rng.choice([['u%d = [t(%d),' % (k, k), '      0]'], ['for j%d in range(t(%d)):' % (k, k), '    pass']]), rng.choice(['SKIP', 'ELLIPSIS', 'NORMALIZE_WHITESPACE']), None
     if r < 0.92:
         return ["print('a   b    %d' %% t(%d))" % (k, k)], 'NORMALIZE_WHITESPACE', None
     if r < 0.96:
